@@ -43,4 +43,9 @@ CHECKS.update({
  'C11': _c('Explicit-state BFS over interleavings of view reads/writes (mol, mass, vol, imass, ivol, set_flow, set_total_flow, F_* setters in eight units of measure, constructor units) with changes of T, P, phase, phases, link_with (flag subsets), unlink, copy_like, property-package reset and empty; after every action mass == mol*MW, vol == mol*V_i(phase,T,P) re-evaluated afresh, totals, unit round trips with conversion constants hard-coded in the harness, DimensionError on wrong dimensions.', 'DESIGN.md section 3, C11'),
  'C14': _c('Explicit-state BFS over interleavings of property reads (18 properties) on a stream, its proxy, a linked stream and a phase view with every public mutator (incl. A->B->A restorations that defeat a key-based memo); the memo and its key are part of the canonical state; every read is compared with a freshly created stream with the same flows, phases, T, P (rtol 1e-12).', 'DESIGN.md section 3, C14'),
 })
+
+CHECKS.update({
+ 'C08': _c('Complete grids of BubblePoint/DewPoint calls over chemical lists (all subsets of two homologous families and every permutation of water/ethanol/methanol), ideal / Dortmund / Dortmund+Poynting packages, simplex-grid compositions incl. zero and trace components, scale factors, T and P grids, plus call histories on the interned solver objects; residual of the defining equation re-evaluated independently, round trips, bracketing, single-component limits, scale and permutation invariance.', 'DESIGN.md section 3, C08'),
+ 'C16': _c('Complete enumeration of model class x chemical set (with and without group-less members) x every permutation x simplex-grid compositions incl. vertices and traces x temperatures; vertex normalisation, Gibbs-Duhem by central differences along every edge, permutation invariance, exact ones for group-less chemicals and ideal models, bit-identical caller arrays, obj(x,T) == obj.f(x,T,*obj.args); histories of consecutive calls on the interned objects to closure (scratch-buffer leakage).', 'DESIGN.md section 3, C16'),
+})
 NOT_APPLICABLE = {k: v for k, v in NOT_APPLICABLE.items() if k not in CHECKS}
